@@ -1995,6 +1995,43 @@ impl HashColumn {
 		Ok(())
 	}
 
+	/// Verification hook: structural dump (index tables through the log overlay, value
+	/// tables from their files; meaningful for value tables once the log is drained).
+	#[cfg(pdb_verif)]
+	pub fn verif_dump(&self, log: &Log, with_values: bool) -> Result<crate::verif::VerifDump> {
+		let tables = self.tables.read();
+		let reindex = self.reindex.read();
+		let mut out = crate::verif::VerifDump::default();
+		let mut sources: Vec<&IndexTable> = vec![&tables.index];
+		for entry in &reindex.queue {
+			if let ReindexEntry::Index(t) = entry {
+				sources.push(t);
+			}
+		}
+		for source in sources {
+			let mut entries = Vec::new();
+			for c in 0..source.id.total_chunks() {
+				let chunk = source.entries(c, log.overlays())?;
+				for (i, e) in chunk.iter().enumerate() {
+					if !e.is_empty() {
+						entries.push((c, i as u8, e.as_u64()));
+					}
+				}
+			}
+			out.index.push((source.id.index_bits(), entries));
+		}
+		out.progress = reindex.progress.load(Ordering::Relaxed);
+		if with_values {
+			for t in &tables.value {
+				let d = t.verif_dump()?;
+				if d.filled > 1 {
+					out.tables.push(d);
+				}
+			}
+		}
+		Ok(out)
+	}
+
 	pub fn get_num_value_entries(&self) -> Result<u64> {
 		let tables = self.tables.read();
 		let mut num_entries = 0;
